@@ -1,0 +1,6 @@
+//go:build verif
+
+package conf
+
+// VerifWhiteSpaceChars returns the cut set used to trim lines, keys and values (read-only accessor for verification).
+func VerifWhiteSpaceChars() string { return whiteSpaceChars }
